@@ -573,6 +573,38 @@ def skeleton(F, fns):
             if ty in ("usize", "?") and r["op"] not in ("Eq", "Ne"):
                 continue        # position / loop-bound comparisons: an index loop and its iterator form differ in these only
             cnt[("cmp", "eq" if r["op"] in ("Eq", "Ne") else "ord", ty)] += 1
+        # decisions taken directly on a boolean field (`if self.params.zlib_compatible { .. }`): which flag
+        for sb in sorted(b.normal_blocks()):
+            st = b.term(sb)
+            if st["k"] != "switch" or len(st["targets"]) != 1:
+                continue
+            tg = [st["targets"][0][1], st["otherwise"]]
+            if any(_panics(b, x) for x in tg) or _only_logs(b, tg[0], tg[1]) or _only_logs(b, tg[1], tg[0]):
+                continue
+            dp = op_place(st["d"])
+            # the tested value may be `a && flag` (two definitions: the flag, and the constant of the short circuit)
+            work, seen_l, found = [dp], set(), set()
+            while work:
+                cur = work.pop()
+                if cur is None:
+                    continue
+                if cur["p"]:
+                    names = [e.get("n") for e in cur["p"] if isinstance(e, dict) and e.get("n")]
+                    if names and not names[-1].isdigit():
+                        found.add(".".join(names[-2:]))
+                    continue
+                if cur["l"] in seen_l or len(seen_l) > 8:
+                    continue
+                seen_l.add(cur["l"])
+                for dd in b.defs(cur["l"]):
+                    if dd[2] != "assign":
+                        continue
+                    if dd[3]["k"] in ("use", "cast"):
+                        work.append(op_place(dd[3]["op"]))
+                    elif dd[3]["k"] == "unop" and dd[3]["op"] == "Not":
+                        work.append(op_place(dd[3]["a"]))
+            for nm in sorted(found):
+                cnt[("flag", nm)] += 1
         for sb in sorted(b.normal_blocks()):
             st = b.term(sb)
             if False:
